@@ -196,6 +196,15 @@ def MArg.lenE (f : MArg) : Except Err Nat :=
   | some n => .ok n
   | none => .error .type
 
+/-- iterating the argument of `map` (`zip(f, …)`) -/
+instance : PyIter MArg Nat := ⟨MArg.fns⟩
+
+/-- the function `partial(delayed, g, x)` wraps `x` with: an item of the iteration, or the argument itself -/
+class ToFnId (α : Type) where
+  fid : α → Nat
+instance : ToFnId Nat := ⟨id⟩
+instance : ToFnId MArg := ⟨MArg.fn⟩
+
 def MArg.single (f : Nat) : MArg := { iterable := false, callable := true, len := none, fns := [], fn := f }
 def MArg.ofList (fs : List Nat) : MArg :=
   { iterable := true, callable := false, len := some fs.length, fns := fs, fn := 0 }
